@@ -37,6 +37,7 @@ type verifFlightEnv struct {
 	once     sync.Once
 	failing  bool
 	yields   int
+	all      []*verifCallRec // every call made through the group
 }
 
 func (e *verifFlightEnv) tick() int64 { return atomic.AddInt64(&e.stamp, 1) }
@@ -112,6 +113,13 @@ func (e *verifFlightEnv) checkShared(r *verifCallRec, useEx bool) {
 	} else {
 		verifAssert(r.executed == 1, "a call that executes does so once")
 	}
+	// one execution serves only calls that pairwise overlap: a call that starts after
+	// another call has returned with this execution's result is a later call
+	for _, o := range e.all {
+		if oid, ok := o.val.(int64); ok && o != r && oid == id && o.returned > 0 {
+			verifAssert(r.invoked < o.returned, "a call invoked after another call returned with an execution's result is not served by that execution (a later call executes afresh)")
+		}
+	}
 	if useEx {
 		verifAssert(r.fresh == (x == r), "DoEx reports fresh exactly for the call that executed")
 	}
@@ -131,8 +139,16 @@ func Verif_C18_singleflight() {
 		keyB = "j"
 	}
 	a, b := &verifCallRec{key: "k"}, &verifCallRec{key: keyB}
+	// the joining caller may call again for the same key the moment its first call is back
+	var again *verifCallRec
+	if sameKey && (startB == 0 || startB == 3) && !e.failing && verifChoose("callsAgain", 2) == 1 {
+		again = &verifCallRec{key: "k"}
+		e.all = append(e.all, again)
+	}
+	e.all = append(e.all, a, b)
 	var wg sync.WaitGroup
-	do := func(r *verifCallRec, gated bool) {
+	var do func(r *verifCallRec, gated bool)
+	do = func(r *verifCallRec, gated bool) {
 		defer wg.Done()
 		r.invoked = e.tick()
 		if useEx {
@@ -141,6 +157,10 @@ func Verif_C18_singleflight() {
 			r.val, r.err = g.Do(r.key, e.fn(r, gated))
 		}
 		atomic.StoreInt64(&r.returned, e.tick())
+		if again != nil && r != again && r.executed == 0 {
+			wg.Add(1)
+			do(again, false)
+		}
 	}
 	wg.Add(2)
 	go do(a, true)
@@ -185,11 +205,16 @@ func Verif_C18_singleflight() {
 	verifYield()
 	e.checkShared(a, useEx)
 	e.checkShared(b, useEx)
+	if again != nil && again.returned > 0 {
+		e.checkShared(again, useEx)
+		verifAssert(again.executed == 1, "a caller that calls again after its shared result is back executes afresh")
+		verifReach("called-again")
+	}
 	if startB != 3 {
 		verifAssert(a.executed == 1, "the first call executes")
 	}
 	if sameKey && (startB == 0 || startB == 3) {
-		verifAssert(e.execs == 1, "overlapping calls for one key are served by one execution")
+		verifAssert(e.execs == 1 || again != nil && e.execs == 2, "overlapping calls for one key are served by one execution")
 		verifAssert(b.val == a.val && b.err == a.err, "overlapping calls receive the same result")
 		verifReach("overlap-shared")
 	}
@@ -204,6 +229,8 @@ func Verif_C18_singleflight() {
 	verifAssert(!e.overlap, "never two executions in progress for one key")
 	// a later call on the same key always executes afresh
 	l := &verifCallRec{key: "k"}
+	e.all = append(e.all, l)
+	again = nil
 	wg.Add(1)
 	do(l, false)
 	e.checkShared(l, useEx)
